@@ -390,7 +390,7 @@ func vfRandField(r *rand.Rand, n int) []byte {
 	for i := range b {
 		switch r.Intn(4) {
 		case 0:
-			b[i] = "@+@+ \tIA"[r.Intn(8)]
+			b[i] = "@+@+ \tIA%"[r.Intn(9)]
 		case 1:
 			b[i] = "ACGTN!#5I~"[r.Intn(10)]
 		default:
@@ -646,7 +646,7 @@ var vfClauses = []vrClause{
 	{
 		Prop: "C02", Name: "roundtrip",
 		Bound: "exhaustive: all lists of <=2 (thorough <=3) records from a set of 24 small records ('@'/'+' in every field position); " +
-			"every single record with read length 0..330 (thorough 0..3000) and 65534,65535,65536,70000, a 70000-byte name (thorough also reads of 1 MiB and 3 MiB+7); then random lists of <=5 records over all bytes of the domain until the budget ends",
+			"every single record with read length 0..330 (thorough 0..3000) and 65534,65535,65536,70000, a 70000-byte name (thorough also reads of 1 MiB and 3 MiB+7); the texts %, 50%, %d, %s%s, 100%%, %!, a%vb as name, as sequence and qualities, and in all three fields; then random lists of <=5 records over all bytes of the domain until the budget ends",
 		Rule: "Write to a buffer has err==nil and emits exactly '@'name LF seq LF '+' LF quals LF; MarshalText bytes == Write bytes; " +
 			"Reader over the concatenation yields exactly the written records in order and no error. " +
 			"Signature fastq:line-longer-than-65535 iff the read-back fails and some line of the written text is longer than 65535 bytes",
@@ -705,10 +705,11 @@ var vfClauses = []vrClause{
 	},
 	{
 		Prop: "C07", Name: "write-fault",
-		Bound: "exhaustive: names {'', 'a', '@x y'} x read lengths 0..40 (thorough 0..150) x every k in 0..len(output)+1; then random records with random k",
-		Rule:  "Write to a writer that accepts k bytes in total and then fails returns a non-nil error iff k < the number of bytes Write emits to a writer that never fails; no panic",
-		Gen:   vfGenWriteFault,
-		Run:   vfRunWriteFault,
+		Bound: "exhaustive: names {'', 'a', '@x y'} x read lengths 0..40 (thorough 0..150) x every k in 0..len(output)+1; " +
+			"name 'a' x read lengths {2100, 4097, 5000} (outputs of 4207, 8201, 10007 bytes) x k in the last 4200 bytes of the output .. len(output)+1 (length 2100: every k; 4097 and 5000: every 5th k and every k in the last 256 bytes) and every 97th k before; then random records with random k",
+		Rule: "Write to a writer that accepts k bytes in total and then fails returns a non-nil error iff k < the number of bytes Write emits to a writer that never fails; no panic",
+		Gen:  vfGenWriteFault,
+		Run:  vfRunWriteFault,
 	},
 	{
 		Prop: "C11", Name: "total",
@@ -782,6 +783,9 @@ func vfLongRec(name string, n int) map[string]any {
 	return map[string]any{"name": vrS(name), "seq": vfPat("ACGTTGCAN", n), "quals": vfPat("I#5~!@+", n)}
 }
 
+// vfPercentTexts: texts that a writer using a field as a printf format would mangle.
+var vfPercentTexts = []string{"%", "50%", "%d", "%s%s", "100%%", "%!", "a%vb"}
+
 func vfGenRoundtrip(g *vrGen) {
 	complete := true
 	emit := func(recs []any) bool {
@@ -801,6 +805,13 @@ func vfGenRoundtrip(g *vrGen) {
 		emit([]any{vfLongRec("long", n)})
 	}
 	emit([]any{vfLongRec("first", 3), vfLongRec("long", 70000), vfLongRec("last", 2)})
+	// printf-verb look-alikes in every field
+	for _, w := range vfPercentTexts {
+		q := bytes.Repeat([]byte("%"), len(w))
+		emit(vfRecsIn([]vfRec{{[]byte(w), []byte("ACGT"), []byte("IIII")}}))
+		emit(vfRecsIn([]vfRec{{[]byte("r"), []byte(w), []byte(w)}}))
+		emit(vfRecsIn([]vfRec{{[]byte(w), []byte(w), q}, {[]byte("next"), []byte("AC"), []byte("II")}}))
+	}
 	emit([]any{map[string]any{"name": vfPat("nm @", 65534), "seq": vrS("ACGT"), "quals": vrS("IIII")}})
 	emit([]any{map[string]any{"name": vfPat("nm @", 70000), "seq": vrS("ACGT"), "quals": vrS("IIII")}})
 	if g.Thorough() {
@@ -1505,6 +1516,27 @@ func vfGenWriteFault(g *vrGen) {
 	for _, name := range []string{"", "a", "@x y"} {
 		for n := 0; n <= maxLen; n++ {
 			ok = ok && allK(vfRec{[]byte(name), bytes.Repeat([]byte("ACGTN"), 60)[:n], bytes.Repeat([]byte("I#5+@"), 60)[:n]})
+		}
+	}
+	// long reads (a writer that buffers internally must still report a fault
+	// that only its last flush meets): k in the last 4200 bytes of the output
+	// (and one past it; length 2100: every k, lengths 4097 and 5000: every 5th k
+	// and every k in the last 256 bytes), every 97th k before.
+	for _, n := range []int{2100, 4097, 5000} {
+		full := 7 + 2*n // '@' 'a' LF seq LF '+' LF quals LF
+		enc := map[string]any{"name": vrS("a"), "seq": vfPat("ACGTN", n), "quals": vfPat("I#5+@", n)}
+		for k := 0; k <= full+1 && ok; k++ {
+			if k < full-4200 && k%97 != 0 {
+				continue
+			}
+			if n != 2100 && k >= full-4200 && k < full-256 && k%5 != 0 {
+				continue
+			}
+			if g.Expired() {
+				complete, ok = false, false
+				break
+			}
+			g.Case(map[string]any{"record": enc, "k": k})
 		}
 	}
 	g.Exhaustive(complete && ok)
